@@ -706,7 +706,9 @@ func (c *Conn) recv(ctx context.Context) error {
 		if err := framer.readFrame(c, &head); err != nil {
 			return err
 		}
-		go c.session.handleEvent(framer)
+		// handle events in the order they arrive: the handler only parses the frame
+		// and hands it to a debouncer, and the last status event of a node must win
+		c.session.handleEvent(framer)
 		return nil
 	} else if head.stream <= 0 {
 		// reserved stream that we dont use, probably due to a protocol error
